@@ -747,4 +747,153 @@ theorem src_infix_of_mem {sg : Seg} : ∀ {l : List Seg}, sg ∈ l → sg.src <:
     · exact (ih h).trans (List.suffix_append _ _).isInfix
 
 
+
+/-- look-behind state of the scanner after having produced `segs` (starting from state `p`) -/
+def stateAfter (p : Bool) (segs : List Seg) : Bool :=
+  match segs.getLast? with
+  | none => p
+  | some sg => sg.endsBs
+
+theorem stateAfter_cons (p : Bool) (sg : Seg) (t : List Seg) : stateAfter p (sg :: t) = stateAfter sg.endsBs t := by
+  cases t with
+  | nil => simp [stateAfter]
+  | cons x xs =>
+    simp only [stateAfter, List.getLast?_cons_cons]
+    cases h : (x :: xs).getLast? with
+    | none => simp at h
+    | some y => rfl
+
+/-- the scan is a left-to-right machine: what follows a prefix of the segment list is the scan of the
+remaining text, started in the look-behind state left by the prefix -/
+theorem scan_split : ∀ (segs1 : List Seg) (f : Nat) (p : Bool) (s : List Char) (segs2 : List Seg),
+    s.length ≤ f → scan f p s = segs1 ++ segs2 →
+    scan f (stateAfter p segs1) (s.drop (segs1.flatMap Seg.src).length) = segs2 := by
+  intro segs1
+  induction segs1 with
+  | nil => intro f p s segs2 _ h; simpa [stateAfter] using h
+  | cons sg t ih =>
+    intro f p s segs2 hf h
+    cases f with
+    | zero => simp [scan] at h
+    | succ f =>
+      cases s with
+      | nil => simp [scan] at h
+      | cons c r =>
+        simp only [scan] at h
+        split at h
+        · rename_i sg' rest hm
+          simp only [List.cons_append, List.cons.injEq] at h
+          obtain ⟨rfl, h⟩ := h
+          have hsrc := matchAt_src hm
+          have hlt := matchAt_shorter hm
+          have := ih f sg'.endsBs rest segs2 (by simp at hf hlt; omega) h
+          rw [stateAfter_cons, List.flatMap_cons, List.length_append, hsrc, ← List.drop_drop]
+          simp only [List.drop_left]
+          rw [← this]
+          exact scan_fuel _ _ _ _ (by simp at hf hlt ⊢; omega) (by simp at hf hlt ⊢; omega)
+        · simp only [List.cons_append, List.cons.injEq] at h
+          obtain ⟨rfl, h⟩ := h
+          have := ih f (isBs c) r segs2 (by simpa using hf) h
+          rw [stateAfter_cons, List.flatMap_cons]
+          simp only [Seg.src, Seg.endsBs, List.length_append, List.length_cons, List.length_nil]
+          rw [show 0 + 1 + (List.flatMap Seg.src t).length = (List.flatMap Seg.src t).length + 1 by omega,
+            List.drop_succ_cons, ← this]
+          exact scan_fuel _ _ _ _ (by simp at hf ⊢; omega) (by simp at hf ⊢; omega)
+
+theorem scan_esc_pos : ∀ (f : Nat) (p : Bool) (s : List Char) (n : Nat), Seg.esc n ∈ scan f p s → 1 ≤ n := by
+  intro f
+  induction f with
+  | zero => intro p s n h; simp [scan] at h
+  | succ f ih =>
+    intro p s n h
+    cases s with
+    | nil => simp [scan] at h
+    | cons c r =>
+      simp only [scan] at h
+      split at h
+      · rename_i sg rest hm
+        rcases List.mem_cons.mp h with h | h
+        · rcases matchAt_cases hm with h' | h' | h'
+          · obtain ⟨_, k, hk, h1⟩ := matchEsc_some h'; rw [← h] at hk; cases hk; exact h1
+          · obtain ⟨_, _, nm', hn, _⟩ := matchVar_some h'; rw [← h] at hn; cases hn
+          · obtain ⟨_, nm', hn, _⟩ := matchEscaped_some h'; rw [← h] at hn; cases hn
+        · exact ih _ _ _ h
+      · rcases List.mem_cons.mp h with h | h
+        · cases h
+        · exact ih _ _ _ h
+
+theorem src_last_bs (sg : Seg) (h : ∀ n, sg = .esc n → 1 ≤ n) :
+    sg.src ≠ [] ∧ (sg.src.getLast? = some '\\' ↔ sg.endsBs = true) := by
+  cases sg with
+  | lit c => simp [Seg.src, Seg.endsBs, isBs]
+  | esc n =>
+    have := h n rfl
+    obtain ⟨k, rfl⟩ : ∃ k, n = k + 1 := ⟨n - 1, by omega⟩
+    refine ⟨by simp [Seg.src, Nat.mul_succ, List.replicate_succ], ?_⟩
+    simp [Seg.src, Seg.endsBs, List.getLast?_replicate]
+  | var nm =>
+    have e : ('@' :: (nm ++ ['@'])) = ('@' :: nm) ++ ['@'] := by simp
+    simp only [Seg.src, Seg.endsBs, e, List.getLast?_concat]
+    simp
+  | escaped nm =>
+    have e : ('\\' :: '@' :: (nm ++ ['\\', '@'])) = ('\\' :: '@' :: (nm ++ ['\\'])) ++ ['@'] := by simp
+    simp only [Seg.src, Seg.endsBs, e, List.getLast?_concat]
+    simp
+
+/-- the look-behind state is exactly "the text produced so far ends in a backslash" -/
+theorem stateAfter_iff (segs : List Seg) (h : ∀ n, Seg.esc n ∈ segs → 1 ≤ n) :
+    stateAfter false segs = true ↔ (segs.flatMap Seg.src).getLast? = some '\\' := by
+  rcases List.eq_nil_or_concat segs with rfl | ⟨l, x, rfl⟩
+  · simp [stateAfter]
+  · have hx := src_last_bs x (fun n hn => h n (by simp [hn, List.concat_eq_append]))
+    have e1 : stateAfter false (l ++ [x]) = x.endsBs := by simp [stateAfter]
+    have e2 : ((l ++ [x]).flatMap Seg.src).getLast? = x.src.getLast? := by
+      rw [List.flatMap_append, List.getLast?_append]
+      cases hsrc : x.src.getLast? with
+      | none => exact absurd (List.getLast?_eq_none_iff.mp hsrc) hx.1
+      | some c => simp [hsrc]
+    rw [List.concat_eq_append, e1, e2, hx.2]
+
+
+
+theorem var_segment_iff_aux (pre nm post : List Char) (segs1 segs2 : List Seg)
+    (hsplit : segments (pre ++ '@' :: (nm ++ '@' :: post)) = segs1 ++ segs2)
+    (hpre : segs1.flatMap Seg.src = pre) :
+    (∃ segs3, segs2 = Seg.var nm :: segs3) ↔
+      (nm ≠ [] ∧ (∀ c ∈ nm, isNameChar c = true) ∧ pre.getLast? ≠ some '\\') := by
+  have hesc : ∀ n, Seg.esc n ∈ segs1 → 1 ≤ n := fun n hn =>
+    scan_esc_pos _ _ _ n (by unfold segments at hsplit; rw [hsplit]; exact List.mem_append_left _ hn)
+  have hst := stateAfter_iff segs1 hesc
+  rw [hpre] at hst
+  have h2 := scan_split segs1 _ false _ segs2 (Nat.le_refl _) hsplit
+  rw [hpre, List.drop_left] at h2
+  -- one step of the scan at the `@`
+  obtain ⟨g, hg⟩ : ∃ g, (pre ++ '@' :: (nm ++ '@' :: post)).length = g + 1 := ⟨_, by simp; rfl⟩
+  rw [hg] at h2
+  simp only [scan] at h2
+  constructor
+  · rintro ⟨segs3, rfl⟩
+    split at h2
+    · rename_i sg rest hm
+      simp only [List.cons.injEq] at h2
+      obtain ⟨rfl, _⟩ := h2
+      rcases matchAt_cases hm with h' | h' | h'
+      · obtain ⟨_, k, hk, _⟩ := matchEsc_some h'; cases hk
+      · obtain ⟨_, hp, nm', hn, h1, h3⟩ := matchVar_some h'
+        cases hn
+        refine ⟨h1, h3, ?_⟩
+        intro hl
+        have := hst.mpr hl
+        rw [hp] at this; cases this
+      · obtain ⟨_, nm', hn, _⟩ := matchEscaped_some h'; cases hn
+    · simp at h2
+  · rintro ⟨h1, h3, hl⟩
+    have hp : stateAfter false segs1 = false := by
+      cases hs : stateAfter false segs1 with
+      | false => rfl
+      | true => exact absurd (hst.mp hs) hl
+    rw [hp, matchAt_var nm post h1 h3] at h2
+    exact ⟨_, h2.symm⟩
+
+
 end MesonModel.Template
